@@ -6,6 +6,7 @@ import Cose.Driver.KeyOps
 import Cose.Driver.SigOps
 import Cose.Driver.EcdhOps
 import Cose.Driver.MsgOps
+import Cose.Driver.DecOps
 /-!
 Line-protocol driver: one operation per input line, one answer per output line.
 `<family>.<op> arg…` → answer.  Unknown operations answer `unknown-op` (never a default value).
@@ -16,7 +17,7 @@ def answer (line : String) : String :=
   match tokens (line.trimAscii.toString) with
   | [] => ""
   | op :: args =>
-    match (Cwt.dispatch op args <|> CborOps.dispatch op args <|> MapOps.dispatch op args <|> PrimOps.dispatch op args <|> KeyOps.dispatch op args <|> SigOps.dispatch op args <|> EcdhOps.dispatch op args <|> MsgOps.dispatch op args) with
+    match (Cwt.dispatch op args <|> CborOps.dispatch op args <|> MapOps.dispatch op args <|> PrimOps.dispatch op args <|> KeyOps.dispatch op args <|> SigOps.dispatch op args <|> EcdhOps.dispatch op args <|> MsgOps.dispatch op args <|> DecOps.dispatch op args) with
     | some r => r
     | none => "unknown-op"
 
